@@ -72,9 +72,15 @@ fn explode_function(
     name_prefix: String,
 ) -> FnUpdate {
     if regulators.is_empty() {
-        let parameter = network.find_parameter(name_prefix.as_str());
+        // The name of a generated constant must not clash with the name of a network variable
+        // (e.g. `f_0` for `f(a)` when the network also has a variable `f_0`): extend it until it is free.
+        let mut name = name_prefix;
+        while network.as_graph().find_variable(name.as_str()).is_some() {
+            name.push('_');
+        }
+        let parameter = network.find_parameter(name.as_str());
         let parameter =
-            parameter.unwrap_or_else(|| network.add_parameter(name_prefix.as_str(), 0).unwrap());
+            parameter.unwrap_or_else(|| network.add_parameter(name.as_str(), 0).unwrap());
         FnUpdate::Param(parameter, Vec::new())
     } else {
         let regulator = regulators[0].clone();
